@@ -215,6 +215,9 @@ def recipes(group):
             c2 = cyc(read_target_after_ms=2500, safe=False); c2['timestamp']['expires'] = 2
             sc4 = base_scenario(); sc4['cycles'] = [c2]
             out.append(('enforcement off: read_target after expiry must not fail as expired', sc4, lambda r: r['cycles'][0].get('read_target') == 'ExpiredMetadata'))
+            sc5 = base_scenario(); sc5['cycles'] = [cyc(read_target_after_ms=10, safe=False, pre=[{'op': 'write_time', 'offset': 2 * 86400}])]
+            out.append(('enforcement off and a stored latest-known-time two days ahead of the clock: load and read_target must both go through', sc5,
+                        lambda r: (not r['cycles'][0]['ok']) or r['cycles'][0].get('read_target') != 'ok'))
     if fn == 'wiring':
         if kind in ('enforcement-passed', 'enforcement-kept'):
             for role in ('timestamp', 'snapshot', 'targets'):
